@@ -7,6 +7,7 @@ for d in sorted(glob.glob(os.path.join(ROOT, "seeded", "*"))):
     m = json.load(open(os.path.join(d, "meta.json")))
     short = m.get("short") or (m.get("summary", "")[:150].replace("|", "/").replace("\n", " ") + "…")
     det = m.get("detected_by"); det = ", ".join(det) if isinstance(det, list) else (det or "not yet evaluated")
+    if m.get("not_kept"): det = "not kept: " + m["not_kept"]
     rows.append(f"| {os.path.basename(d)}{' (rebased)' if m.get('rebased') else ''} | {short} | {det} | {m.get('strengthened', '')} |")
 p = os.path.join(ROOT, "DESIGN.md"); s = open(p).read()
 s = re.sub(r"(<!-- SEEDED-TABLE-BEGIN -->\n).*?(<!-- SEEDED-TABLE-END -->)", lambda m: m.group(1) + "\n".join(rows) + "\n" + m.group(2), s, flags=re.S)
